@@ -35,6 +35,9 @@ pub struct Mutation {
     pub sub: u8,
     pub val: u64,
     pub remine: bool,
+    /// the peer regenerates a VALID MMR proof for the (all genuine) headers it chose to reveal: shape-only deviations
+    #[serde(default)]
+    pub reprove: bool,
 }
 
 #[derive(Debug, Clone, Serialize, Deserialize)]
@@ -57,7 +60,7 @@ pub struct Case {
 
 pub struct C01;
 
-pub const KINDS: [&str; 27] = [
+pub const KINDS: [&str; 32] = [
     "honest",
     "header-nonce",
     "header-field",
@@ -85,6 +88,11 @@ pub const KINDS: [&str; 27] = [
     "drop-reorg-section",
     "shift-sample",
     "bytes",
+    "drop-last-n-middle",
+    "drop-reorg-front",
+    "drop-reorg-back",
+    "skip-boundary-blocks",
+    "drop-sample",
 ];
 
 const LAST_NS: [u64; 6] = [1, 2, 3, 5, 10, 100];
@@ -175,13 +183,20 @@ fn valid(chain: &Chain, peer_tip: u64, req: &packed::GetLastStateProof, msg: &pa
     let before: Vec<u64> = numbers.iter().cloned().filter(|n| *n < start).collect();
     // reorg section
     let start_is_ancestor = start <= last && chain.blocks[start as usize].hash() == req.start_hash();
-    if start != 0 && !start_is_ancestor {
+    // The client cannot know whether the peer regards the start hash as an ancestor, so a well-shaped reorg section of
+    // genuine headers is tolerated when it was not needed; so is a section reaching further back to block 1 (the
+    // client's documented "blocks are not enough" rule): the predicate errs on the side of "valid".
+    let reorg_shape_ok = |before: &Vec<u64>| {
         let from = if start > last_n { start - last_n } else { 1 };
         let want: Vec<u64> = (from..start.min(last)).collect();
-        if before != want {
+        let want_long: Vec<u64> = (1..start.min(last)).collect();
+        *before == want || *before == want_long
+    };
+    if start != 0 && !start_is_ancestor {
+        if !reorg_shape_ok(&before) {
             return Err("reorg-section-wrong");
         }
-    } else if !before.is_empty() {
+    } else if !before.is_empty() && !reorg_shape_ok(&before) {
         return Err("unrequested-reorg-section");
     }
     if start >= last {
@@ -193,6 +208,9 @@ fn valid(chain: &Chain, peer_tip: u64, req: &packed::GetLastStateProof, msg: &pa
             return Err("last-n-section-not-all-blocks");
         }
     } else {
+        if after.last() != Some(&(last - 1)) {
+            return Err("last-n-section-does-not-end-at-the-parent-of-the-last-header");
+        }
         // contiguous tail
         let mut first_tail = last;
         for n in after.iter().rev() {
@@ -475,7 +493,54 @@ fn apply(chain: &Chain, fork: &Chain, req: &packed::GetLastStateProof, honest: &
         }
         "empty-headers" => headers.clear(),
         "empty-proof" => proof.clear(),
+        "drop-last-n-middle" => {
+            let k = layout.reorg.len() + layout.sampled.len();
+            if headers.len() >= k + 3 {
+                let span = (headers.len() - k - 2) as u64;
+                headers.remove(k + 1 + (m.val % span) as usize);
+            }
+        }
+        "drop-reorg-front" => {
+            if !layout.reorg.is_empty() {
+                headers.remove(0);
+            }
+        }
+        "drop-reorg-back" => {
+            if !layout.reorg.is_empty() {
+                headers.remove(layout.reorg.len() - 1);
+            }
+        }
+        "skip-boundary-blocks" => {
+            // the tail starts after the boundary block but still has more than last_n blocks
+            let k = layout.reorg.len() + layout.sampled.len();
+            let last_n: u64 = req.last_n_blocks().unpack();
+            let tail = headers.len() - k.min(headers.len());
+            if !layout.sampled.is_empty() && tail as u64 > last_n + 1 {
+                let room = tail as u64 - last_n - 1;
+                let j = 1 + (m.val % room) as usize;
+                headers.drain(k..k + j);
+            }
+        }
+        "drop-sample" => {
+            if !layout.sampled.is_empty() {
+                let k = layout.reorg.len() + idx(m.pos, layout.sampled.len());
+                headers.remove(k);
+            }
+        }
         _ => {}
+    }
+    if m.reprove && !matches!(kind, "bytes" | "honest" | "drop-proof-item" | "duplicate-proof-item" | "perturb-proof-item" | "append-proof-item" | "empty-proof") {
+        // a peer which owns the real chain reveals another set of genuine headers and proves exactly that set
+        let ln: u64 = last.header().raw().number().unpack();
+        let nums: Vec<u64> = headers.iter().map(|h| Unpack::<u64>::unpack(&h.header().raw().number())).collect();
+        let all_genuine = !nums.is_empty()
+            && (ln as usize) < chain.blocks.len()
+            && vh_equal(&last, &chain.verifiable_header(ln))
+            && nums.windows(2).all(|w| w[0] < w[1])
+            && nums.iter().zip(headers.iter()).all(|(n, h)| *n < ln && vh_equal(h, &chain.verifiable_header(*n)));
+        if all_genuine {
+            proof = chain.proof_for(ln, &nums).into_iter().collect();
+        }
     }
     let msg = packed::SendLastStateProof::new_builder()
         .last_header(last)
@@ -531,7 +596,8 @@ impl Property for C01 {
             Tier::Quick => 260u16,
             Tier::Thorough => 600u16,
         };
-        let mutation = (prop_oneof![1 => Just(0u8), 24 => 1u8..26, 3 => Just(26u8)], any::<u16>(), any::<u8>(), any::<u64>(), prop::bool::weighted(0.4)).prop_map(|(kind, pos, sub, val, remine)| Mutation { kind, pos, sub, val, remine });
+        let mutation = (prop_oneof![1 => Just(0u8), 20 => 1u8..26, 3 => Just(26u8), 8 => 27u8..32], any::<u16>(), any::<u8>(), any::<u64>(), prop::bool::weighted(0.4), prop::bool::weighted(0.6))
+            .prop_map(|(kind, pos, sub, val, remine, reprove)| Mutation { kind, pos, sub, val, remine, reprove });
         (any::<u64>(), 1u8..25, 1u8..30, prop_oneof![2 => Just(0u16), 3 => 1u16..200], 1u16..maxg, 0u8..6, prop::bool::weighted(0.2), prop_oneof![7 => Just(0u8), 1 => Just(1u8), 1 => Just(2u8), 3 => Just(3u8), 1 => Just(4u8), 3 => Just(5u8)], mutation)
             .prop_map(|(seed, n_epochs, maxlen, proven, growth, last_n, restart_before, situation, mutation)| Case {
                 seed,
@@ -755,7 +821,11 @@ impl Property for C01 {
                             "last-n"
                         }
                     };
-                    obs.nontrivial((kind, case.mutation.sub % 16, target_section, shape, !layout.reorg.is_empty(), case.mutation.remine, why));
+                    let reproved = case.mutation.reprove && decoded.as_ref().map(|p| p.proof().as_slice() != honest.proof().as_slice() || p.headers().as_slice() == honest.headers().as_slice()).unwrap_or(false);
+                    if case.mutation.reprove && decoded.as_ref().map(|p| p.headers().as_slice() != honest.headers().as_slice()).unwrap_or(false) {
+                        obs.label(format!("reproved-shape-deviation:{}", why));
+                    }
+                    obs.nontrivial((kind, case.mutation.sub % 16, target_section, shape, !layout.reorg.is_empty(), case.mutation.remine, why, reproved));
                 }
                 finish(Ok(()))
             }
